@@ -56,6 +56,9 @@ def config_fields(ctx, adt_key, summ=None):
         for w in all_writes(ctx, f):
             sf = self_field(w)
             if sf is not None and w["how"] != "borrow":
+                if w["how"] == "store" and len(w["path"]) == 1 and w.get("value") is not None and w["value"][0] == "field" and w["value"][2] == sf \
+                        and w["value"][1][:2] == ("param", 1):
+                    continue        # stored back unchanged (`*self = Self::new(self.cfg, ..)` expanded through the constructor)
                 written.add(sf)
     fields = [f["name"] for f in prog.adts[adt_key]["variants"][0]["fields"]]
     return [f for f in fields if f not in written]
